@@ -35,6 +35,34 @@ func genConcCase(rng *simrt.Rng, o *ConcOpts) *ConcCase {
 	for i := 0; i < np; i++ {
 		cc.Prefill = append(cc.Prefill, pg.Next(nil))
 	}
+	// table growth / shrink during the run: filler keys (>= 100) bring the table to a resize threshold
+	resize := 0
+	var victims []int
+	if o.Resize && rng.Intn(3) == 0 {
+		resize = 1 + rng.Intn(2)
+		cfg.InitCap = 0
+		if cfg.bounded() {
+			cfg.Bound = "size"
+			cfg.Max = 1000
+			cfg.Weights = nil
+		}
+		n := 106 + rng.Intn(14) // grow threshold of the initial 32-bucket table is 120 entries
+		if resize == 2 {
+			n = 124 + rng.Intn(6) // grown once; then emptied towards the shrink threshold (2 entries)
+		}
+		for i := 0; i < n; i++ {
+			cc.Prefill = append(cc.Prefill, Op{Kind: "set", K: 100 + i, V: pg.newVal()})
+		}
+		if resize == 2 {
+			keep := 1 + rng.Intn(8)
+			for i := 0; i < n-keep; i++ {
+				cc.Prefill = append(cc.Prefill, Op{Kind: "invalidate", K: 100 + i})
+			}
+			for i := n - keep; i < n; i++ {
+				victims = append(victims, 100+i)
+			}
+		}
+	}
 	nt := o.Tasks[0] + rng.Intn(o.Tasks[1]-o.Tasks[0]+1)
 	for t := 0; t < nt; t++ {
 		g := NewOpGen(rng, cfg, &prof)
@@ -52,6 +80,13 @@ func genConcCase(rng *simrt.Rng, o *ConcOpts) *ConcCase {
 				}
 			}
 			ops = append(ops, op)
+			switch {
+			case resize == 1 && rng.Intn(2) == 0:
+				ops = append(ops, Op{Kind: "set", K: 1000 + t*100 + i, V: g.newVal()}) // fresh key: pushes growth
+			case resize == 2 && len(victims) > 0 && rng.Intn(2) == 0:
+				ops = append(ops, Op{Kind: "invalidate", K: victims[0]})
+				victims = victims[1:]
+			}
 		}
 		cc.Tasks = append(cc.Tasks, ops)
 	}
